@@ -27,3 +27,27 @@ package keeper
 //@   ensures[C17.at.once]  err == nil ==> atMoved()
 //@ loop #1
 //@   invariant atMoved()
+
+// C17: the claims booked for one operator's stakers add up to exactly the amount handed in: what the stakers get
+// (ghost counter `staked`: the sum of all single-staker allocations, per denomination) plus what goes to the
+// community pool (truncation dust, or everything when nobody has power) equals rewardToAllStakers. (The lookup of
+// the operator's AVS list fails only on a malformed store key; on that path nothing is booked: not covered.)
+//@ func (Keeper).AllocateTokensToSingleStaker
+//@   flag assumed
+//@   modifies state(ctx)
+//@   bumps staked by dcv(reward)
+
+//@ func (Keeper).AllocateTokensToStakers
+//@   requires feePool != nil && dcv(rewardToAllStakers) >= 0 && dcv(feePool.CommunityPool) >= 0
+//@   flag pure=GetOptedInAVSForOperator,GetAVSSupportedAssets,GetStakersByOperator,CalculateUSDValueForStaker
+//@   modifies state(ctx), *feePool, ghost(staked)
+//@   ensures[C17.ats.sum] res_GetOptedInAVSForOperator_1 == nil ==> dcv(feePool.CommunityPool) - old(dcv(feePool.CommunityPool)) + (ghost(staked) - old(ghost(staked))) == dcv(rewardToAllStakers)
+//@ loop #1
+//@   invariant true
+//@ loop #2
+//@   invariant true
+//@ loop #3
+//@   invariant true
+//@ loop #4
+//@   invariant[C17.ats.sum] dcv(remaining) == dcv(rewardToAllStakers) - (ghost(staked) - old(ghost(staked)))
+//@   invariant *feePool == old(*feePool)
